@@ -14,6 +14,7 @@ import (
 	"pgregory.net/rapid"
 
 	"verif/pbt/kit"
+	"verif/pbt/refdb"
 )
 
 // indexCfg is a generated index configuration of one table.
@@ -239,6 +240,79 @@ func checkCacheIndexes(w *kit.World, tb kit.Table, cfg indexCfg, rc *cache.RowCa
 	}
 	if rc.Len() != len(want) {
 		return mm("cache.contents", "Len() = %d, want %d", rc.Len(), len(want))
+	}
+	// Where-style lookups: conditions naming the values of an index (alone, and together
+	// with a _uuid condition naming the same or another row) select what a scan selects.
+	// They run first: a selection must also leave the indexes as they are.
+	{
+		var specs [][]c05ColKey
+		for _, idx := range cfg.Schema {
+			var cks []c05ColKey
+			for _, c := range idx {
+				cks = append(cks, c05ColKey{Col: c})
+			}
+			specs = append(specs, cks)
+		}
+		specs = append(specs, cfg.Client...)
+		uuids := kit.SortedUUIDs(want)
+		for ui, u := range uuids {
+			if ui >= 4 {
+				break
+			}
+			for _, spec := range specs {
+				var conds []kit.Cond
+				ok := true
+				for _, ck := range spec {
+					v := want[u][ck.Col]
+					if ck.Key != "" {
+						mv, has := v.Get(kit.Str(ck.Key))
+						if !has {
+							ok = false
+							break
+						}
+						conds = append(conds, kit.Cond{Col: ck.Col, Fn: "includes", Val: kit.MapOf(kit.Str(ck.Key), mv)})
+						continue
+					}
+					if hasZero(v) {
+						ok = false
+						break
+					}
+					conds = append(conds, kit.Cond{Col: ck.Col, Fn: "==", Val: v})
+				}
+				if !ok {
+					continue
+				}
+				other := uuids[(ui+1)%len(uuids)]
+				for _, variant := range [][]kit.Cond{conds,
+					append([]kit.Cond{{Col: "_uuid", Fn: "==", Val: kit.Scalar(kit.UUID(other))}}, conds...),
+					append(append([]kit.Cond{}, conds...), kit.Cond{Col: "_uuid", Fn: "==", Val: kit.Scalar(kit.UUID(u))})} {
+					op := kit.Op{Op: "select", Table: tb.Name, Where: variant}
+					ref := refdb.Exec(w.S, kit.State{tb.Name: want}, []kit.Op{op}, nil)
+					if ref.FailedAt >= 0 || ref.Results[0].MayReject != "" {
+						continue
+					}
+					dec, err := kit.DecodeOps(w.S, []kit.Op{op})
+					if err != nil {
+						continue
+					}
+					got, err := rc.RowsByCondition(dec[0].Where)
+					if err != nil {
+						return mm("lookup.where", "RowsByCondition(%s): %v", kit.MustJSON(op.Wire(w.S)), err)
+					}
+					exp := map[string]bool{}
+					for _, r := range ref.Results[0].Rows {
+						exp[r["_uuid"].K[0].S] = true
+					}
+					same := len(got) == len(exp)
+					for gu := range got {
+						same = same && exp[gu]
+					}
+					if !same {
+						return mm("lookup.where", "RowsByCondition(%s) returns %d rows, a scan finds %d", kit.MustJSON(op.Wire(w.S)), len(got), len(exp))
+					}
+				}
+			}
+		}
 	}
 	// Index(): addressed by plain column names
 	check := func(cols []string, unique bool, tuple func(kit.Row) string) *mismatch {
